@@ -29,3 +29,24 @@ Definition is_blank (n : bytes) : bool := bytes_eqb n [underscore].
 (* a name under which a package can be imported AND referred to:  a valid identifier that is
    not a keyword and not the blank identifier (`import _ "p"` binds nothing) *)
 Definition valid_name_b (n : bytes) : bool := go_ident_b n && negb (is_keyword n) && negb (is_blank n).
+
+(* ---- predeclared identifiers ----
+   The identifiers of Go's universe scope (spec, "Predeclared identifiers").  They are valid
+   non-keyword identifiers, so [valid_name_b] accepts them; a package imported under such a name
+   shadows the identifier in the whole file, which is the separate clause [not_predeclared_b].
+   The list the repaired tracker consults is go/types.Universe of the toolchain; it reaches the
+   model as Gen/StdList.v [universe_names] (regenerated on every run) and Proofs/StdTable.v checks
+   that it covers the list of the spec below. *)
+Definition spec_predeclared : list bytes :=
+  map bs ["any"; "bool"; "byte"; "comparable"; "complex64"; "complex128"; "error"; "float32"; "float64";
+          "int"; "int8"; "int16"; "int32"; "int64"; "rune"; "string";
+          "uint"; "uint8"; "uint16"; "uint32"; "uint64"; "uintptr";
+          "true"; "false"; "iota"; "nil";
+          "append"; "cap"; "clear"; "close"; "complex"; "copy"; "delete"; "imag"; "len"; "make"; "max"; "min";
+          "new"; "panic"; "print"; "println"; "real"; "recover"]%string.
+
+(* types.Universe.Lookup(n) != nil, for the universe whose names are [universe] *)
+Definition name_in (universe : list bytes) (n : bytes) : bool := existsb (bytes_eqb n) universe.
+
+(* the additional clause of C03: the local name does not shadow a predeclared identifier *)
+Definition not_predeclared_b (universe : list bytes) (n : bytes) : bool := negb (name_in universe n).
